@@ -860,8 +860,13 @@ def dump_one(f: TextIO, data: IOData):
 
     f.write("[GTO]\n")
     last_icenter = -1
-    # The shells must be sorted by center.
-    for shell in sorted(obasis.shells, key=(lambda s: s.icenter)):
+    # The shells must be sorted by center. The rows of the orbital coefficients
+    # are reordered accordingly.
+    order = sorted(range(len(obasis.shells)), key=(lambda i: obasis.shells[i].icenter))
+    offsets = np.cumsum([0] + [shell.nbasis for shell in obasis.shells])
+    shell_permutation = np.concatenate([np.arange(offsets[i], offsets[i + 1]) for i in order])
+    obasis = attrs.evolve(obasis, shells=[obasis.shells[i] for i in order])
+    for shell in obasis.shells:
         if shell.icenter != last_icenter:
             if last_icenter != -1:
                 f.write("\n")
@@ -877,6 +882,7 @@ def dump_one(f: TextIO, data: IOData):
 
     # Get the permutation to convert the orbital coefficients to Molden conventions.
     permutation, signs = convert_conventions(obasis, CONVENTIONS)
+    permutation = shell_permutation[permutation]
 
     # Print the mean-field orbitals
     if data.mo.kind == "unrestricted":
